@@ -121,9 +121,17 @@ class RecordingAlgorithm(Scheduling):
     def __init__(self, inner, sink):
         super().__init__()
         self.inner, self.sink = inner, sink
+        self.name = getattr(inner, "name", self.name)
 
     def __repr__(self):
         return repr(self.inner)
+
+    def __getattr__(self, name):
+        # transparent: whatever else the simulator asks the algorithm object for
+        # (its name, its partition parameters) is the wrapped algorithm's answer
+        if name in ("inner", "sink"):
+            raise AttributeError(name)
+        return getattr(self.inner, name)
 
     def run(self, cluster, clock, workflow_plan, existing_schedule, task_pool):
         from .tracer import task_key
